@@ -30,6 +30,10 @@ func runR79(c *Ctx) {
 		for _, e := range ents {
 			op, isCmp := cmpOps[e.key]
 			nullKey := e.key == "isnull" || e.key == "isnotnull"
+			if e.key == "any_bits" || e.key == "all_bits" {
+				r79Bits(c, p, cp, e)
+				continue
+			}
 			if !isCmp && !nullKey {
 				continue
 			}
@@ -323,6 +327,47 @@ func operatorDecision(b *ssa.BasicBlock) bool {
 	_, cx := bo.X.(*ssa.Const)
 	_, cy := bo.Y.(*ssa.Const)
 	return isStrParam(bo.X) && cy || isStrParam(bo.Y) && cx
+}
+
+// r79Bits: the bit-mask kernels by definition: any_bits stores (cell & arg) > 0 (or != 0), all_bits stores (cell & arg) == arg.
+func r79Bits(c *Ctx, p *Prog, cp string, e tableEntry) {
+	key := cp + "." + e.table + "[" + e.key + "] definition"
+	stores := boolStores(e.fn)
+	if len(stores) != 1 {
+		c.undecided(key, p.pos(e.fn.Pos()), fmt.Sprintf("%d stores into the boolean index; expected 1", len(stores)))
+		return
+	}
+	var arg *ssa.Parameter
+	for _, prm := range e.fn.Params {
+		if isIntegerType(prm.Type()) {
+			arg = prm
+		}
+	}
+	cmp, ok := stores[0].Val.(*ssa.BinOp)
+	if !ok || arg == nil {
+		c.undecided(key, p.instrPos(stores[0]), "the stored bit is not a comparison / the mask argument was not found")
+		return
+	}
+	and, ok := cmp.X.(*ssa.BinOp)
+	if !ok || and.Op != token.AND || and.X != ssa.Value(arg) && and.Y != ssa.Value(arg) {
+		c.bad(key, p.instrPos(cmp), "the stored bit does not compare `cell & mask`")
+		return
+	}
+	k, isK := constInt(cmp.Y)
+	switch e.key {
+	case "any_bits":
+		if isK && k == 0 && (cmp.Op == token.GTR || cmp.Op == token.NEQ) {
+			c.ok(key, p.instrPos(cmp), "cell & mask > 0")
+		} else {
+			c.bad(key, p.instrPos(cmp), fmt.Sprintf("any_bits stores `cell & mask %s %s`; a cell sharing only the lowest bit with the mask (cell & mask = 1) must be selected", cmp.Op, describe(cmp.Y)))
+		}
+	case "all_bits":
+		if cmp.Op == token.EQL && cmp.Y == ssa.Value(arg) {
+			c.ok(key, p.instrPos(cmp), "cell & mask == mask")
+		} else {
+			c.bad(key, p.instrPos(cmp), fmt.Sprintf("all_bits stores `cell & mask %s %s`, not `== mask`", cmp.Op, describe(cmp.Y)))
+		}
+	}
 }
 
 // ---- R80: a filter dispatcher never reports success without a kernel having seen the boolean index ----
